@@ -177,6 +177,10 @@ def lshift_simplifier(val, shift):
     return None
 
 
+def _is_single_bit(value):
+    return isinstance(value, int) and value > 0 and value & (value - 1) == 0
+
+
 def eq_simplifier(a, b):
     if a is b:
         return claripy.true()
@@ -208,17 +212,21 @@ def eq_simplifier(a, b):
         if a.args[0].op == "BVV" and a.args[0].args[0] == 1:  # 1 ^ expr == 0
             return a.args[1] == 1
 
-        # (expr & a) ^ a == 0  ->  expr & a != 0
+        # (expr & a) ^ a == 0  ->  expr & a != 0; only valid when the mask a has exactly one bit set
         if (
             a.args[1].op == "BVV"
+            and _is_single_bit(a.args[1].args[0])
             and a.args[0].op == "__and__"
+            and len(a.args[0].args) == 2
             and a.args[0].args[1].op == "BVV"
             and a.args[0].args[1].args[0] == a.args[1].args[0]
         ):
             return a.args[0] != 0
         if (
             a.args[1].op == "BVV"
+            and _is_single_bit(a.args[1].args[0])
             and a.args[0].op == "__and__"
+            and len(a.args[0].args) == 2
             and a.args[0].args[0].op == "BVV"
             and a.args[0].args[0].args[0] == a.args[1].args[0]
         ):
@@ -306,17 +314,21 @@ def ne_simplifier(a, b):
         if a.args[0].op == "BVV" and a.args[0].args[0] == 1:
             return a.args[1] != 1
 
-        # (expr & a) ^ a != 0  ->  expr & a == 0
+        # (expr & a) ^ a != 0  ->  expr & a == 0; only valid when the mask a has exactly one bit set
         if (
             a.args[1].op == "BVV"
+            and _is_single_bit(a.args[1].args[0])
             and a.args[0].op == "__and__"
+            and len(a.args[0].args) == 2
             and a.args[0].args[1].op == "BVV"
             and a.args[0].args[1].args[0] == a.args[1].args[0]
         ):
             return a.args[0] == 0
         if (
             a.args[1].op == "BVV"
+            and _is_single_bit(a.args[1].args[0])
             and a.args[0].op == "__and__"
+            and len(a.args[0].args) == 2
             and a.args[0].args[0].op == "BVV"
             and a.args[0].args[0].args[0] == a.args[1].args[0]
         ):
